@@ -46,6 +46,17 @@ CHECKS = {
    technique="Lean 4 proof over the NewRouter accumulation model + differential correspondence of CORSHandler arguments"),
 }
 
+CHECKS["C12"] = dict(category="proof",
+   text="The quantifier over the runtime's map iteration orders is discharged by a regenerated obligation: on every run a go/types translator lists every range over a map, maps.Keys/Values call, environment read and go/select statement of goag's four packages; Lean re-checks (decide) that every site of the CURRENT source has a shape with a permutation-invariance lemma (sorted_perm_eq for collect-then-sort, insertDistinct_perm for distinct-key inserts) or a hash-pinned reviewed entry. A new or edited site fails the obligation. The failing-input search generates map-fat specs (>=4 entries and case-variant sibling keys in every map-typed construct), the fixtures and random specs 8 (quick) / 28 (thorough) times in-process and in fresh processes and compares sha256 per file.",
+   design_ref="DESIGN.md §4.12",
+   note="Trusted: Lean kernel (+propext, Classical.choice, Quot.sound); the translator's syntactic shape detection (fails closed); the 4 hand-reviewed sites pinned by statement hash; library code called by the generator (kin-openapi, text/template, x/tools/imports, encoding/json) assumed order-insensitive and sampled by the repeated-run search; TEMPLATE_DEBUG unset.",
+   technique="regenerated Lean obligation over a source-extracted site table + permutation-invariance lemmas; repeated-run hash comparison as failing-input search")
+CHECKS["C19"] = dict(category="proof",
+   text="Lean theorem Goag.Dir.history_last_wins: for histories of ANY length and any initial directory, the goag-owned files after the history equal what the last invocation alone produces in an empty directory, and foreign files are untouched (plus rerun_idempotent). The step model stepDir (write/remove per owned file, O_TRUNC) is validated EXHAUSTIVELY on every run: all 2^5 stale-file patterns x user file x 8 invocations (512 single steps) against the real generator, plus all 584 histories of length <= 3 and random longer ones, with a stale marker longer than any generated file and a user file that imports same-named non-stdlib packages.",
+   design_ref="DESIGN.md §4.19",
+   note="Trusted: Lean kernel (+propext, Classical.choice, Quot.sound); hand-written stepDir tied exhaustively on single steps; sha256 equality with a fresh-directory run as the meaning of 'what a single run produces'; the filesystem; runs that return success.",
+   technique="Lean 4 proof over an exhaustively validated one-step model of Generate's file logic")
+
 REASONS_PENDING = "check not built yet in this round of work (see DESIGN.md §12 order); nothing is claimed for it"
 
 def main():
